@@ -15,12 +15,37 @@ class Z3Tr:
     def __init__(self, ctx=None):
         self.c = ctx or A.CTX
         self.vars = {}
+        self.ivars = {}
         self.used = set()
+
+    def is_int(self, vid):
+        return bool(self.c.info[vid].get('integer'))
+
+    def int_poly(self, p: Poly):
+        """integer-sorted translation of L*p (L = lcm of coefficient denominators) for polynomials over
+        integer symbols only; None otherwise.  (z3 5.1 loops on to_real in linear mixed problems.)"""
+        if not p.t or not all(self.is_int(v) for v in p.vars()): return None
+        import math
+        L = 1
+        for c in p.t.values():
+            d = Q(c).denominator; L = L * d // math.gcd(L, d)
+        terms = []
+        for m, c in p.t.items():
+            t = z3.IntVal(int(Q(c) * L))
+            for v, e in m:
+                self.used.add(v)
+                x = self.ivars.setdefault(v, z3.Int(f'{self.c.names[v]}__{v}'))
+                for _ in range(e): t = t * x
+            terms.append(t)
+        return z3.Sum(terms) if len(terms) > 1 else terms[0]
 
     def var(self, vid):
         x = self.vars.get(vid)
         if x is None:
-            x = z3.Real(f'{self.c.names[vid]}__{vid}')
+            if self.c.info[vid].get('integer'):
+                x = z3.ToReal(self.ivars.setdefault(vid, z3.Int(f'{self.c.names[vid]}__{vid}')))
+            else:
+                x = z3.Real(f'{self.c.names[vid]}__{vid}')
             self.vars[vid] = x
         self.used.add(vid)
         return x
@@ -52,6 +77,10 @@ class Z3Tr:
         if c.op == 'not': return z3.Not(self.cond(c.a))
         if c.op == 'and': return z3.And(self.cond(c.a), self.cond(c.b))
         if c.op == 'or': return z3.Or(self.cond(c.a), self.cond(c.b))
+        if not c.a.den:
+            ip = self.int_poly(c.a.num)
+            if ip is not None:
+                return {'gt': ip > 0, 'ge': ip >= 0, 'eq': ip == 0}[c.op]
         s = self.signed_num(c.a)
         if c.op == 'gt': return s > 0
         if c.op == 'ge': return s >= 0
@@ -113,6 +142,43 @@ def check_sat(conds, timeout_ms=2000, extra=None):
     return str(r)
 
 
+def _vars_of(c):
+    vs = set()
+    if isinstance(c, bool): return vs
+    for a in c.atoms(): vs |= a.a.vars()
+    return vs
+
+
+def relevant(path, goal):
+    """path literals connected to the goal through shared variables (cone of influence)"""
+    ctx = A.CTX
+    seen = set(_vars_of(goal))
+    # atoms drag in the variables of their defining relations
+    def close(vs):
+        out = set(vs); changed = True
+        while changed:
+            changed = False
+            for v in list(out):
+                r = ctx.rules.get(v)
+                if r is not None:
+                    nv = r[1].vars() - out
+                    if nv: out |= nv; changed = True
+        return out
+    seen = close(seen)
+    items = [(c, _vars_of(c)) for c in path]
+    used = [False] * len(items)
+    changed = True
+    while changed:
+        changed = False
+        for i, (c, vs) in enumerate(items):
+            if not used[i] and vs & seen:
+                used[i] = True
+                nv = close(vs) - seen
+                if nv: seen |= nv
+                changed = True
+    return [c for (c, _), u in zip(items, used) if u]
+
+
 def prove(path, goal, timeout_ms=DEFAULT_TIMEOUT_MS):
     """path /\\ facts /\\ relations => goal ?   returns 'proved' | 'refuted' | 'unknown'
     ('refuted' = the negation is satisfiable in the relational abstraction: a candidate only)"""
@@ -120,8 +186,14 @@ def prove(path, goal, timeout_ms=DEFAULT_TIMEOUT_MS):
         if goal: return 'proved'
         r = check_sat(list(path), timeout_ms)
         return {'unsat': 'proved', 'sat': 'refuted'}.get(r, 'unknown')
-    r = check_sat(list(path) + [~goal], timeout_ms)
+    rel = relevant(list(path), goal)
+    r = check_sat(rel + [~goal], min(timeout_ms, 5000))
     if r == 'unsat': return 'proved'
+    if len(rel) < len(path):
+        r2 = check_sat(list(path) + [~goal], timeout_ms)
+        if r2 == 'unsat': return 'proved'
+        if r2 == 'sat': return 'refuted'
+        return 'refuted' if r == 'sat' and False else 'unknown'
     if r == 'sat': return 'refuted'
     return 'unknown'
 
